@@ -1215,6 +1215,28 @@ def rule_normform(ctx) -> RuleResult:
                 if not raw and not normed:
                     continue
                 res.inst(f"{q}: refusal '{norm(st.test)[:50]}' keyed on the normalised '{N}': {bool(normed) and not raw}", f"{q}|{st.lineno}")
+                # laziness clause: the function is told about laziness through several flags (is_dask_array, any_by_dask); the chunked pipeline runs
+                # when ANY of them is set, so a refusal of an unsupported strategy must depend on all of them (as the sibling default-strategy branch does)
+                lazy_params = [p_ for p_ in f.params if "dask" in p_ or "chunked" in p_ or "lazy" in p_]
+                if len(lazy_params) > 1 and normed:
+                    # direct names plus one level of local flags (all_eager = not is_dask_array and not any_by_dask); the normalised local itself is
+                    # not expanded (its other assignments mention the flags for unrelated reasons)
+                    local_defs = {a.targets[0].id: a.value for a in walk_own(f.node)
+                                  if isinstance(a, ast.Assign) and len(a.targets) == 1 and isinstance(a.targets[0], ast.Name) and a.targets[0].id != N}
+                    alld = set()
+                    for lf in leaves:
+                        for nm in names_in(lf):
+                            alld.add(nm)
+                            if nm in local_defs:
+                                alld |= names_in(local_defs[nm])
+                    missing = [p_ for p_ in lazy_params if p_ not in alld]
+                    if any(p_ in alld for p_ in lazy_params):
+                        res.inst(f"{q}: refusal at line {st.lineno} depends on every laziness flag {lazy_params}: {not missing}", f"{q}|lazy|{st.lineno}")
+                        if missing:
+                            res.report(f"{q}|refusal-ignores-laziness-flag|{'+'.join(missing)}", f.where(st), q,
+                                       f"the refusal '{norm(st.test)[:60]}' is taken only for some lazy inputs: it does not depend on {missing}, although the chunked "
+                                       "pipeline also runs when only the labels are lazy (numpy values + dask labels): the unsupported request then runs and fails inside "
+                                       "the graph (AssertionError) or returns a wrong answer")
                 if raw:
                     res.report(f"{q}|refusal-on-raw-spelling|{P}|{norm(raw[0])[:30]}", f.where(st), q,
                                f"the refusal '{norm(st.test)[:60]}' is guarded by '{norm(raw[0])}', a test of the raw parameter `{P}`, although the function normalises "
